@@ -608,7 +608,7 @@ impl<'a, 'b> Gen<'a, 'b> {
                 if self.o.luau && self.t.bool(150) {
                     // if-expression with falsy / nil results, elseif chains, calls as branches
                     self.stat("if_expr");
-                    let n = 1 + self.t.weighted(&[6, 2]);
+                    let n = 1 + self.t.weighted(&[6, 2, 2, 1]);
                     let mut clauses = vec![];
                     for _ in 0..n {
                         let c = self.cond(d - 1);
@@ -1336,14 +1336,42 @@ impl<'a, 'b> Gen<'a, 'b> {
                     let nums: Vec<&(String, Kind)> = fields.iter().filter(|(_, k)| *k == Kind::Num).collect();
                     let f = nums[self.t.choose(nums.len())].0.clone();
                     self.stat("compound_on_side_effect_prefix");
-                    let prefix = match self.t.choose(3) {
+                    // longer prefix chains go through a holder local: `local h = {v}  h[probe1(1)].f += e`
+                    let mut holder: Option<(String, Expr)> = None;
+                    let prefix = match self.t.choose(6) {
                         0 => nm(&v.name),
                         1 => callg("probe1", vec![nm(&v.name)]),
-                        _ => paren(callg("probe", vec![nm(&v.name), num(1.0)])),
+                        2 => paren(callg("probe", vec![nm(&v.name), num(1.0)])),
+                        3 => {
+                            self.counter += 1;
+                            let h = format!("h{}", self.counter);
+                            holder = Some((h.clone(), Expr::Table(vec![TableItem::Pos(nm(&v.name))])));
+                            index(nm(&h), callg("probe1", vec![num(1.0)]))
+                        }
+                        4 => {
+                            self.counter += 1;
+                            let h = format!("h{}", self.counter);
+                            holder = Some((h.clone(), Expr::Table(vec![TableItem::Named("r".into(), nm(&v.name))])));
+                            if self.t.bool(128) { field(nm(&h), "r") } else { index(nm(&h), callg("probe1", vec![s("r")])) }
+                        }
+                        _ => {
+                            self.counter += 1;
+                            let h = format!("h{}", self.counter);
+                            holder = Some((h.clone(), Expr::Table(vec![TableItem::Pos(Expr::Table(vec![TableItem::Pos(nm(&v.name))]))])));
+                            index(index(nm(&h), callg("probe1", vec![num(1.0)])), callg("probe2", vec![num(1.0)]))
+                        }
                     };
                     let target = if self.t.bool(128) { index(prefix, callg("probe1", vec![s(&f)])) } else { field(prefix, &f) };
                     let op = [BinOp::Add, BinOp::Sub, BinOp::Mul][self.t.choose(3)];
-                    (target, op, self.e_num(d))
+                    let value = self.e_num(d);
+                    if let Some((h, init)) = holder {
+                        self.stat("compound_on_prefix_chain");
+                        return Some(Stmt::Do(Block::new(vec![
+                            Stmt::Local { is_const: false, names: vec![Binding::new(h)], values: vec![init] },
+                            Stmt::CompoundAssign { target, op, value },
+                        ])));
+                    }
+                    (target, op, value)
                 } else {
                     return None;
                 }
